@@ -22,7 +22,7 @@ type kindDef struct {
 }
 
 var (
-	annKeys  = []string{"ak", "ak1", "ak1.x", "ak2", "ak3", "verif/k4"}
+	annKeys  = []string{"ak", "ak1", "ak1.x", "ak2", "k", "verif/k4"}
 	envKeys  = []string{"E", "E1", "E1_X", "E2", "E3", "PATH"}
 	mntKeys  = []string{"/m0", "/m1", "/m1/sub", "/m2", "/m2/", "/m3//x", "/m1/./sub", "/etc/m4", "/m5//d/", "/m5/d/leaf"}
 	devKeys  = []string{"/dev/d0", "/dev/d1", "/dev/d1x", "/dev/d2", "/dev/d3"}
@@ -176,8 +176,14 @@ func (g *mgen) setResField(r *api.LinuxResources, kind, key string, boundary boo
 		r.Pids = &api.LinuxPids{Limit: n}
 	case "blockio":
 		r.BlockioClass = &api.OptionalString{Value: fmt.Sprintf("bio%d", un)}
+		if boundary && g.chance(0.1) {
+			r.BlockioClass.Value = "" // set to "no class"
+		}
 	case "rdt":
 		r.RdtClass = &api.OptionalString{Value: fmt.Sprintf("rdt%d", un)}
+		if boundary && g.chance(0.1) {
+			r.RdtClass.Value = ""
+		}
 	case "hugepage":
 		r.HugepageLimits = append(r.HugepageLimits, &api.HugepageLimit{PageSize: key, Limit: un})
 	case "unified":
@@ -303,7 +309,14 @@ func (g *mgen) genSpec() *rspec.Spec {
 	}
 	for _, k := range envKeys {
 		if g.chance(0.35) {
-			s.Process.Env = append(s.Process.Env, fmt.Sprintf("%s=orig-e%d", k, g.next()))
+			v := fmt.Sprintf("orig-e%d", g.next())
+			switch g.rng.IntN(6) {
+			case 0:
+				v = "-Dopt=" + v + "=x" // values may contain '=' themselves
+			case 1:
+				v = ""
+			}
+			s.Process.Env = append(s.Process.Env, k+"="+v)
 		}
 	}
 	for _, k := range mntKeys {
@@ -408,6 +421,13 @@ func (g *mgen) genReqResources() *api.LinuxResources {
 			}
 		} else if full || g.chance(0.3) {
 			g.setResField(r, k.name, "", false)
+		}
+	}
+	if g.chance(0.4) {
+		// device cgroup rules submitted by the runtime: no plugin changes them, every plugin sees them
+		for n := 1 + g.rng.IntN(2); n > 0; n-- {
+			r.Devices = append(r.Devices, &api.LinuxDeviceCgroup{Allow: g.chance(0.5), Type: "c", Access: "rwm",
+				Major: &api.OptionalInt64{Value: g.next()}, Minor: &api.OptionalInt64{Value: int64(g.rng.IntN(3))}})
 		}
 	}
 	return r
@@ -694,7 +714,7 @@ func systematicSpecs() []sysSpec {
 					}
 				}
 				if p == "create-adjust" && k.removable && k.keyed {
-					pats = append(pats, "decoy-removal-then-set", "decoy-after-removal")
+					pats = append(pats, "decoy-removal-then-set", "decoy-after-removal", "set-then-removed")
 				}
 				pats = append(pats, "same-value")
 				if p != "create-adjust" && d.n == 2 {
@@ -713,7 +733,7 @@ func systematicSpecs() []sysSpec {
 					pats = append(pats, "remove-many-then-set")
 				}
 				if p != "create-adjust" && d.n >= 3 && d.b-d.a >= 2 {
-					pats = append(pats, "collision-after-ignored-drop", "ignored-partial-drop", "ignored-partial-drop-maps")
+					pats = append(pats, "collision-after-ignored-drop", "ignored-partial-drop", "ignored-partial-drop-maps", "collision-after-ignored-drop-same-response")
 				}
 				for _, pat := range pats {
 					for _, oh := range []bool{false, true} {
@@ -851,6 +871,10 @@ func (g *mgen) genSystematic(id string, s sysSpec) *MCase {
 		rb.Adjust = &api.ContainerAdjustment{}
 		g.adjRemove(rb.Adjust, s.Kind, "-"+key)
 		g.adjSet(rb.Adjust, s.Kind, key, false)
+	case "set-then-removed":
+		// A sets key (the original may hold it, too), B removes it and nobody sets it again: it is gone
+		put(s.A, false, true)
+		put(s.B, true, false)
 	case "decoy-after-removal":
 		// A removes key; B removes the different item "-key": A's removal must survive in the combined result
 		put(s.A, true, false)
@@ -888,6 +912,28 @@ func (g *mgen) genSystematic(id string, s sysSpec) *MCase {
 			g.adjSet(rb.Adjust, s.Kind, keys[1], false)
 			g.adjSet(rb.Adjust, s.Kind, keys[2], false)
 		}
+	case "collision-after-ignored-drop-same-response":
+		// A sets X on the target and Y on a second container. The plugin after it sends, in ONE response,
+		// an ignore-failure update setting X (conflicts, dropped) and then a plain update setting Y on the
+		// second container: that one conflicts too and must fail the request
+		put(s.A, false, true)
+		second := c.Others[1]
+		if second == target {
+			second = c.Others[2]
+		}
+		yk := "mem.reservation"
+		if s.Kind == yk {
+			yk = "cpu.quota"
+		}
+		ua := &api.ContainerUpdate{ContainerId: second, Linux: &api.LinuxContainerUpdate{}}
+		g.setResField(ensureRes(&ua.Linux.Resources), yk, "", false)
+		c.Resp[s.A].Updates = append(c.Resp[s.A].Updates, ua)
+		mid := &c.Resp[s.A+1]
+		u1 := &api.ContainerUpdate{ContainerId: target, Linux: &api.LinuxContainerUpdate{}, IgnoreFailure: true}
+		g.setResField(ensureRes(&u1.Linux.Resources), s.Kind, key, false)
+		u2 := &api.ContainerUpdate{ContainerId: second, Linux: &api.LinuxContainerUpdate{}}
+		g.setResField(ensureRes(&u2.Linux.Resources), yk, "", false)
+		mid.Updates = append(mid.Updates, u1, u2)
 	case "ignored-partial-drop-maps":
 		// like ignored-partial-drop, with the map- and list-typed fields: the target already holds a unified
 		// key and a hugepage limit from the first (successful) update of the plugin after A; its second,
@@ -959,7 +1005,7 @@ func (g *mgen) genSystematic(id string, s sysSpec) *MCase {
 	// innocents: unrelated annotation / resource fields from their own partitions
 	for p := 0; p < s.N; p++ {
 		if p == s.A || p == s.B || ((s.Pattern == "lone-removal-between" || s.Pattern == "remove-many-then-set" ||
-			s.Pattern == "collision-after-ignored-drop" || s.Pattern == "ignored-partial-drop" || s.Pattern == "ignored-partial-drop-maps") && p == s.A+1) {
+			s.Pattern == "collision-after-ignored-drop" || s.Pattern == "ignored-partial-drop" || s.Pattern == "ignored-partial-drop-maps" || s.Pattern == "collision-after-ignored-drop-same-response") && p == s.A+1) {
 			continue
 		}
 		r := &c.Resp[p]
